@@ -556,6 +556,14 @@ func checkDiscipline(w *World, r *Report, la *LockAnalysis, filter func(sharedSt
 			}
 			if a.Node != nil && !isFreshAccess(a) {
 				h := heldLockFields(la, la.HeldAt(a.Node))
+				if a.IsWrite() {
+					// a write needs the lock exclusively: a read lock held around it protects nothing
+					for k, mode := range h {
+						if mode == "R" {
+							delete(h, k)
+						}
+					}
+				}
 				if common == nil {
 					common = h
 				} else {
